@@ -598,7 +598,7 @@ template <class S> static void run_solver(Ctx& ctx, bool T) {
       double big = std::fmax(q.a, q.a * (1 - q.f));
       double coslat = std::cos(A.v[0] * Math::degree());
       double dpos = std::hypot((A.v[0] - D.v[0]) * Math::degree() * big, std::remainder(A.v[1] - D.v[1], 360.0) * Math::degree() * big * coslat);
-      double dazi = std::fabs(std::remainder(A.v[2] - D.v[2], 360.0)) * Math::degree() * big * std::fmax(coslat, 1e-3);    // azimuth is ill-defined at the pole itself
+      double dazi = std::fabs(std::remainder(A.v[2] - D.v[2], 360.0)) * Math::degree() * big * coslat;    // as a displacement at the end point (the azimuth is ill-defined at the pole itself)
       // The coincidence of the arc- and distance-specified point is a self-consistency claim ("the same point"), not an
       // absolute-accuracy claim: the documented accuracy (10 um for |f| <= 0.05, ...) is no yardstick for it.  Calibrated:
       // worst observed on the unchanged tree 3.1 nm (a = WGS84 a), frozen at 16 nm per half turn, never looser than 2 x documented.
@@ -619,7 +619,8 @@ template <class S> static void run_solver(Ctx& ctx, bool T) {
       double dm = std::fmax(std::fabs(A.v[4] - D.v[4]), std::fmax(std::fabs(A.v[5] - D.v[5]), std::fabs(A.v[6] - D.v[6])) * big);
       ctx.worst("arc_vs_distance.m12_M12_M21_over_tol", dm / tol, key);
       if (!(dm <= tol)) ctx.fail(key + " arc-dist-m12", "m12/M12/M21 differ by " + fmt(dm) + " m-equivalent between arc- and distance-specified position", FF("arc-vs-distance"));
-      double dS = std::fabs(A.v[7] - D.v[7]) / big;
+      // S12 contains c2 * (azi2 - azi1): next to a pole a displacement d of the end point turns azi2 by d / (distance to the axis)
+      double dS = std::fabs(A.v[7] - D.v[7]) / big * std::fmin(1.0, coslat);
       if (!atpole) ctx.worst("arc_vs_distance.S12_over_tol", dS / tol, key);
       if (!atpole && !(dS <= tol)) ctx.fail(key + " arc-dist-S12", "S12 differs by " + fmt(dS * big) + " m^2 between arc- and distance-specified position", FF("arc-vs-distance"));
     }
